@@ -364,6 +364,13 @@ impl LinearCoeff for i32 {
         model.pending_constraint_asts.push(ast);
     }
     fn post_lin_eq_reif(model: &mut Model, coeffs: &[Self], vars: &[VarId], constant: Self, b: VarId) {
+        // A linear relation whose coefficient and variable vectors differ in length is malformed and
+        // can never hold: its reification is false (the propagator indexes coefficients[i] for every variable)
+        if coeffs.len() != vars.len() {
+            model.props.equals(b, crate::variables::Val::ValI(0));
+            return;
+        }
+
         // Phase 2: Create AST node for reified constraint
         use crate::runtime_api::{ConstraintKind, ComparisonOp};
         let ast = ConstraintKind::ReifiedLinearInt {
@@ -376,6 +383,13 @@ impl LinearCoeff for i32 {
         model.pending_constraint_asts.push(ast);
     }
     fn post_lin_le_reif(model: &mut Model, coeffs: &[Self], vars: &[VarId], constant: Self, b: VarId) {
+        // A linear relation whose coefficient and variable vectors differ in length is malformed and
+        // can never hold: its reification is false (the propagator indexes coefficients[i] for every variable)
+        if coeffs.len() != vars.len() {
+            model.props.equals(b, crate::variables::Val::ValI(0));
+            return;
+        }
+
         // Phase 2: Create AST node for reified constraint
         use crate::runtime_api::{ConstraintKind, ComparisonOp};
         let ast = ConstraintKind::ReifiedLinearInt {
@@ -388,6 +402,13 @@ impl LinearCoeff for i32 {
         model.pending_constraint_asts.push(ast);
     }
     fn post_lin_ne_reif(model: &mut Model, coeffs: &[Self], vars: &[VarId], constant: Self, b: VarId) {
+        // A linear relation whose coefficient and variable vectors differ in length is malformed and
+        // can never hold: its reification is false (the propagator indexes coefficients[i] for every variable)
+        if coeffs.len() != vars.len() {
+            model.props.equals(b, crate::variables::Val::ValI(0));
+            return;
+        }
+
         // Phase 2: Create AST node for reified constraint
         use crate::runtime_api::{ConstraintKind, ComparisonOp};
         let ast = ConstraintKind::ReifiedLinearInt {
@@ -478,6 +499,13 @@ impl LinearCoeff for f64 {
         model.pending_constraint_asts.push(ast);
     }
     fn post_lin_eq_reif(model: &mut Model, coeffs: &[Self], vars: &[VarId], constant: Self, b: VarId) {
+        // A linear relation whose coefficient and variable vectors differ in length is malformed and
+        // can never hold: its reification is false (the propagator indexes coefficients[i] for every variable)
+        if coeffs.len() != vars.len() {
+            model.props.equals(b, crate::variables::Val::ValI(0));
+            return;
+        }
+
         // Phase 2: Create AST node for reified constraint
         use crate::runtime_api::{ConstraintKind, ComparisonOp};
         let ast = ConstraintKind::ReifiedLinearFloat {
@@ -490,6 +518,13 @@ impl LinearCoeff for f64 {
         model.pending_constraint_asts.push(ast);
     }
     fn post_lin_le_reif(model: &mut Model, coeffs: &[Self], vars: &[VarId], constant: Self, b: VarId) {
+        // A linear relation whose coefficient and variable vectors differ in length is malformed and
+        // can never hold: its reification is false (the propagator indexes coefficients[i] for every variable)
+        if coeffs.len() != vars.len() {
+            model.props.equals(b, crate::variables::Val::ValI(0));
+            return;
+        }
+
         // Phase 2: Create AST node for reified constraint
         use crate::runtime_api::{ConstraintKind, ComparisonOp};
         let ast = ConstraintKind::ReifiedLinearFloat {
@@ -502,6 +537,13 @@ impl LinearCoeff for f64 {
         model.pending_constraint_asts.push(ast);
     }
     fn post_lin_ne_reif(model: &mut Model, coeffs: &[Self], vars: &[VarId], constant: Self, b: VarId) {
+        // A linear relation whose coefficient and variable vectors differ in length is malformed and
+        // can never hold: its reification is false (the propagator indexes coefficients[i] for every variable)
+        if coeffs.len() != vars.len() {
+            model.props.equals(b, crate::variables::Val::ValI(0));
+            return;
+        }
+
         // Phase 2: Create AST node for reified constraint
         use crate::runtime_api::{ConstraintKind, ComparisonOp};
         let ast = ConstraintKind::ReifiedLinearFloat {
